@@ -238,6 +238,36 @@ macro_rules! implementor {
             }
         }
 
+        impl core::fmt::Debug for $name {
+            fn fmt(&self, f: &mut core::fmt::Formatter<'_>) -> core::fmt::Result {
+                self.core.enter("fmt_debug", 0, &[]);
+                let s = self.core.mix(0xDEB);
+                if s % 4 == 0 {
+                    return Err(core::fmt::Error);
+                }
+                write!(f, "Imp<{:x}>", s)
+            }
+        }
+        impl core::fmt::Display for $name {
+            fn fmt(&self, f: &mut core::fmt::Formatter<'_>) -> core::fmt::Result {
+                self.core.enter("fmt_display", 0, &[]);
+                let s = self.core.mix(0xD15);
+                // several pieces, one of them non-ASCII: every piece crosses the boundary as a &str
+                f.write_str(&self.core.text)?;
+                f.write_str("|")?;
+                if s % 5 == 0 {
+                    return Err(core::fmt::Error);
+                }
+                write!(f, "{}|{}", s % 1000, "")
+            }
+        }
+        impl AsRef<u64> for $name {
+            fn as_ref(&self) -> &u64 {
+                self.core.enter("as_ref", 0, &[(&self.core.cell as *const u64 as usize, 1)]);
+                &self.core.cell
+            }
+        }
+
         impl Basic for $name {
             extern "C" fn b_get(&self) -> u64 {
                 self.core.enter("b_get", 0, &[]);
